@@ -8,6 +8,7 @@ mod sqlgen;
 mod util;
 mod audit;
 mod pagesdrv;
+mod treedrv;
 mod tuple;
 mod wal;
 mod wire;
@@ -21,6 +22,7 @@ fn main() {
     let rest = util::Args(args[1..].to_vec());
     let code = match args[0].as_str() {
         "wal" => wal::main(&rest),
+        "tree" => treedrv::main(&rest),
         "pages" => pagesdrv::main(&rest),
         "tuple" => tuple::main(&rest),
         "wire" => wire::main(&rest),
